@@ -205,13 +205,13 @@ func verifNow() time.Time { return time.Now() }
 // ---------- snapshots for frame conditions ----------
 
 type verifPairSnap struct {
-	p                      *CandidatePair
-	state                  CandidatePairState
-	nominated, nomOnSucc   bool
-	reqCount               uint16
-	reqRecv, reqSent       uint64
-	respRecv, respSent     uint64
-	remote                 Candidate
+	p                    *CandidatePair
+	state                CandidatePairState
+	nominated, nomOnSucc bool
+	reqCount             uint16
+	reqRecv, reqSent     uint64
+	respRecv, respSent   uint64
+	remote               Candidate
 }
 
 type verifSnap struct {
